@@ -450,7 +450,10 @@ def run_property(prop: str, tier: str, specs, *, level="model_checking", crash_i
             elif r["p"] in props:
                 nP += 1
                 sig = sig_of(r) if sig_of else r["c"].split(":")[0]
-                if r["h"] in mid_resumed and r["l"] >= mid_resumed[r["h"]] and r["p"] in ("C01", "C02", "C05", "C12"):
+                # (what the mid-iteration pickle explains is the double counting AFTER the resume, not a restored
+                #  state that differs from the pickled one)
+                if r["h"] in mid_resumed and r["l"] >= mid_resumed[r["h"]] and r["p"] in ("C01", "C02", "C05", "C12") \
+                        and not r["c"].startswith(("restored", "started_afresh", "resumed_from_a_checkpoint")):
                     sig = "resumed_from_checkpoint_on_training_inside_iteration"
                 h = hs[r["h"]]
                 v.violation(sig, f"{r['p']} clause '{r['c']}' fails at event {r['l']} "
